@@ -38,7 +38,7 @@ func (c04) Batches(tier string, seed uint64) []core.Batch {
 	if tier == "thorough" {
 		b = append(b, spread("dpkg-legality", 4, 1500)...)
 	}
-	return b
+	return append(b, conc(tierN(tier, 120, 800), "rand")...)
 }
 
 func (c04) Mandatory(tier string) []string {
@@ -127,6 +127,9 @@ func (p c04) emit(t *core.T, d model.MDep, sp model.Spacer, used map[[2]string]i
 }
 
 func (p c04) RunBatch(t *core.T, b core.Batch) {
+	if concDispatch(p, t, b) {
+		return
+	}
 	r := t.Rand(b.Name, fmt.Sprint(b.Arg))
 	switch b.Name {
 	case "slot":
